@@ -11,6 +11,9 @@ CLAIMS = {
  'C02': 'helpers::compute_swap (constant-product arm) with fully symbolic reserves, offer and fee triple (validated by the real PoolFee::is_valid): gross-amount identity, exact fee split, proceeds < ask reserve, totality outside the listed known defect, and (thorough) the two-swap round trip.',
  'C05': 'Every vault entry point that moves value (deposit first/next, withdraw, collect, fee change) and the flash-loan bracket (after_trade from an arbitrary state) is executed symbolically for native and cw20 vaults; z3 shows pro-rata mint/payout, share-price monotonicity, the minimum-liquidity lock and deposit-then-withdraw <= deposit for all 128-bit values and all valid fee triples.',
  'C06': 'flash_loan message order/content, callback authorisation with a symbolic sender, after_trade from an ARBITRARY post-callback state (the adversary is any balance/ledger), exact fee split, payback query vs after_trade (exact suffices, one less fails), deposit guard during loans, a depth-2 nested-loan history with arbitrary repayments, and the vault router next_loan / complete_loan obligations.',
+ 'C07': 'Per-step fee-ledger identities: swap bookkeeping against a symbolic SwapComputation (pending ledger, all-time counters, burn message, nothing else moves), collect (exact amounts, recipient, carve-out for the sub-threshold defect), ledgers untouched by deposits/withdrawals; vault after_trade / collect / other entry points.',
+ 'C14': 'Differential execution: the real Simulation query and the real swap execution run on one symbolic state (offer credited between the two); transferred return, recorded protocol fee, burned amount and every amount attribute equal the quote. Vault Share query equals the withdraw payout.',
+ 'C17': 'Three symbolic toggle bits in the stored config; every guarded entry path of pair and vault: accepted only with its own bit on, rejected as disabled only with its own bit off (whatever the other bits), a paused call writes nothing; instantiate stores all bits true.',
  'C15': 'assert_max_spread (spread and belief-price clauses, default and cap) and the pair slippage-tolerance test with fully symbolic arguments, the arguments swap passes to the slippage check, and the router: AssertMinimumReceive appended last with the receiver balance, and Ok <=> balance delta >= minimum.',
  'C20': 'Every path of the real epoch-manager create_epoch entry point from an arbitrary stored epoch/config with symbolic block time, 0..3 hooks: accepted calls are never early and advance id/start by exactly one step; permissionless.',
 }
